@@ -27,7 +27,7 @@ FAIL_EXC = {'fail-nokeys': 'DeviceAuthError', 'fail-nontoken': 'InvalidResponseE
             'fail-transport': 'ConnectionRefusedError', 'fail-rechallenge': ('AdbTimeoutError', 'TcpTimeoutException')}
 OPS = ['shell', 'exec_out', 'root', 'reboot', 'streaming_shell', 'list', 'stat', 'pull', 'pull-path', 'pull-newpath', 'push', 'stream-drain']
 NEUTRAL = ['stream-create']
-EMPTY = ['list-empty', 'stat-empty', 'pull-empty', 'push-empty']
+EMPTY = ['list-empty', 'stat-empty', 'pull-empty', 'push-empty', 'push-dir-empty']
 ALPHABET = list(CONNECTS) + ['close'] + OPS + EMPTY + NEUTRAL
 
 
@@ -43,6 +43,8 @@ def op_for(sym, i):
     if sym == 'stream-drain':
         return ('gen-drain',)
     e = ['', b'', None][i % 3]
+    if sym == 'push-dir-empty':
+        return ('push', ('dir', {'a': b'x' * 10} if i % 2 else {}, 'elsewhere'), ['', b''][i % 2])
     return {'list-empty': ('list', e), 'stat-empty': ('stat', e), 'pull-empty': ('pull', e, 'path'),
             'push-empty': ('push', ('bytes', b'zz'), e)}[sym]
 
@@ -130,6 +132,57 @@ def run_seq(params, ch):
         s.finish()
 
 
+def run_close_race(params, ch):
+    """asyncio: one task has called close() (or connect()) and is waiting for the transport while another task starts an operation:
+    the operation must be refused without a byte being written, whatever the order in which the transport completes things."""
+    from .. import vloop
+    cfg = scen.ops_cfg()
+    s = Session(ch, cfg, twin='async')
+    try:
+        s.op(('connect',))
+        loop = s.loop
+        loop._explore_io = True
+        s.env.sched = loop
+        hb = s.env.host_bytes
+        seen = {}
+
+        async def closer():
+            await (s.dev.close() if params['first'] == 'close' else s.dev.connect(**{'_x': 0} and {}))
+            return ('ok', None)
+
+        async def user():
+            seen['available_at_start'] = s.dev.available
+            seen['bytes_at_start'] = s.env.host_bytes
+            try:
+                if params['op'] == 'shell':
+                    return ('ok', await s.dev.shell('c', decode=False))
+                return ('ok', tuple(await s.dev.stat('/f')))
+            except Exception as e:  # pylint: disable=broad-except
+                return ('exc', type(e).__name__)
+        viol = []
+        try:
+            tasks = loop.drive(closer(), user())
+            res = [t.result() for t in tasks]
+        except vloop.Deadlock as e:
+            res = [('deadlock',), ('deadlock',)]
+            viol.append({'msg': 'deadlock: %s' % e})
+        loop._explore_io = False
+        s.env.sched = None
+        if params['first'] == 'close':
+            # the user task starts after close() was called (tasks start in creation order): it must be refused and write nothing
+            if seen.get('available_at_start') is not False:
+                viol.append({'msg': 'available is %r after close() has been called (the transport close is still in progress)' % (seen.get('available_at_start'),)})
+            if res[1][:2] != ('exc', 'AdbConnectionError'):
+                viol.append({'msg': '%s started after close() was called gave %r' % (params['op'], res[1])})
+            if s.env.host_bytes != seen.get('bytes_at_start', hb):
+                viol.append({'msg': '%s started after close() was called wrote %d bytes to the transport' % (params['op'], s.env.host_bytes - seen.get('bytes_at_start', hb))})
+        return {'outcome': (res[0][0], res[1][:2]), 'viol': viol, 'nontrivial': (params['first'], params['op'], tuple(ch.choices)), 'states': [(seen.get('available_at_start'),)], 'trans': loop.steps,
+                'sample': dict(params, results=[r[:2] for r in res])}
+    finally:
+        s.env.sched = None
+        s.finish()
+
+
 def seqs(alpha, k):
     out = []
     lvl = [()]
@@ -147,4 +200,6 @@ def parts(tier):
     d = 5 if tier == 'quick' else 6
     sc = [{'seq': list(q), 'twin': t} for q in seqs(small, d) if len(q) == d for t in ('sync', 'async')]
     out.append(Part('deep-sequences', sc, run_seq, what='all sequences of length exactly %d over a reduced 8-symbol alphabet' % d, bound='length %d, 8 symbols' % d))
+    out.append(Part('close-race-async', [{'first': 'close', 'op': o} for o in ('shell', 'stat')], run_close_race, {'io-order': None, 'dev-order': None}, min_outcomes=1,
+                    what='asyncio: an operation started while another task is inside close(): every I/O completion order', bound='complete'))
     return out
